@@ -225,6 +225,7 @@ func runF(op string, in M) (M, M) {
 			printed = m.String()
 			m2 = ParseMnemonic(printed)
 			mt, _ := m.MarshalText()
+			m3 = Mnemonic{"left", "over", "words"} // the receiver held another sentence before
 			_ = m3.UnmarshalText(mt)
 		})
 		out := M{"words": wordsOut(m), "reparse": wordsOut(m2), "unmarshal": wordsOut(m3), "printed": vInts([]byte(printed)), "panic": p}
@@ -263,7 +264,7 @@ func setLang(l string) {
 	emit("bip39.SetWordList", M{"lang": l})
 }
 
-var passPool = []string{"", "TREZOR", "passphrase", "\u00e9", "e\u0301", "\ufb01\u2460\uff46\uff55\uff4c\uff4c\u3000\uff57\uff49\uff44\uff54\uff48", "\u212b", "\u01c6", "\uff76\uff9e",
+var passPool = []string{"", "TREZOR", "passphrase", "100%", "%s%d%v%%", "\uff05x", "a\\b\"c", "\x00nul", "tab\there", "\u00e9", "e\u0301", "\ufb01\u2460\uff46\uff55\uff4c\uff4c\u3000\uff57\uff49\uff44\uff54\uff48", "\u212b", "\u01c6", "\uff76\uff9e",
 	"a long passphrase that goes on and on and on and on and on and on and on and on and on and on and on and on and on and on and on and on and on!",
 	"\u33bf", "\u1e9b\u0323", "\xff\xfe", "\u0928\u092e\u0938\u094d\u0924\u0947", "  spaces  "}
 
